@@ -213,6 +213,16 @@ def check_scan(chk, rep0, repo, pre="", only=None):
                and not [t for t in facts(e.guards) if t not in facts(li.guards) and t not in facts(((bs.cond, True),))
                         and (li.cond is None or t not in facts(((li.cond, True),)))]]
         direct = len(seed) == 1 and len(acc) == 1
+    if not labs and len(stores) == 1 and from_zero:
+        # the same without a seed: the minimum starts at FLOAT_MAX, so the first offer goes through the acceptance test like
+        # every other and writes the label there
+        from ..ir import facts
+        acc = [e for e in stores if e.loops == li.loops + (li.lid,) and e.value == ("attr", node(nxt), "predicted_label")
+               and has_guard(e.guards, bs.cond)
+               and not [t for t in facts(e.guards) if t not in facts(li.guards) and t not in facts(((bs.cond, True),))
+                        and (li.cond is None or t not in facts(((li.cond, True),)))
+                        and t not in [mk_not(g) for g in bs.outer_guards] and t not in bs.outer_guards]]
+        direct = len(acc) == 1
     # winner form: the node travels with the minimum and its label is read after the scan
     winner = False
     if not labs and not direct and len(stores) == 1:
